@@ -371,7 +371,8 @@ class Labels(JSONField):
         # Oracle ocid1.<RESOURCE TYPE>.<REALM>.[REGION][.FUTURE USE].<UNIQUE ID> "ocid1.instance.oc1.phx.abuw4ljrlsfiqw6vzzxb67hyypt4pkodawglp3wqxjqofakrwvou52gb6s5a"
         'account_id': (r'[\w\-/\.]{3,100}', "Azure/GCP/AWS/Oracle account"),
         'region': (r'[\w\-\.]{3,100}', "Azure/GCP/AWS/Oracle region identifier"),
-        'usb_id': (r'[0-9a-f]{4}:[0-9a-f]{4}', "USB device id '1234:abcd'")
+        'usb_id': (r'[0-9a-f]{4}:[0-9a-f]{4}', "USB device id '1234:abcd'"),
+        'numa': (r'-1|[0-7]', "0")
     }
     LAMBDA_VALIDATORS = {
         'vlan': ((lambda v: True if 0 <= int(v) <= 4096 else False), "0-4096"),
@@ -425,13 +426,13 @@ class Labels(JSONField):
                 if self.VALIDATORS.get(k, None) is not None:
                     if isinstance(v, list):
                         for i in v:
-                            matches = re.match('^' + self.VALIDATORS[k][0] + '$', i)
+                            matches = re.fullmatch(self.VALIDATORS[k][0], i)
                             if matches is None:
                                 raise LabelException(f'Provided label value {i} for {k} does not match the allowed '
                                                      f'regular expression {self.VALIDATORS[k][0]}, valid example is '
                                                      f'{self.VALIDATORS[k][1]}')
                     else:
-                        matches = re.match('^' + self.VALIDATORS[k][0] + '$', v)
+                        matches = re.fullmatch(self.VALIDATORS[k][0], v)
                         if matches is None:
                             raise LabelException(f'Provided label value {v} for {k} does not match the allowed '
                                                  f'regular expression {self.VALIDATORS[k][0]}, valid example is '
